@@ -366,7 +366,7 @@ GUARD1 = (MAP_GET, MAP_DEL, TRAFFIC, SOCKS, DOM_DEL)     # one lookup read befor
 FAULT_SCENARIOS = [(MAP_DEL, {"obj": 0}), (MAP_DEL, {"obj": 3}), (MAP_GET, {"obj": 0}), (TRAFFIC, {"obj": 0, "sent": 5, "recv": 5}),
                    (SOCKS, {"obj": 0}), (CODE_ACT, {"obj": 0}), (CODE_ACT, {"obj": 1}), (CODE_GEN, {}), (CODE_LIST, {}), (DOM_CREATE, {}),
                    (DOM_DEL, {"obj": 0}), (DOM_DEL, {"obj": 1}), (DOM_LIST, {}), (MAP_LIST, {}), (CONFIG_GET, {}),
-                   (DNS_RESOLVE, {"tgt": 2}), (DNS_QUERY, {"tgt": 0}), (NOTIFY, {"tgt": 2})]
+                   (DNS_RESOLVE, {"tgt": 2}), (DNS_QUERY, {"tgt": 0}), (DNS_QUERY, {"tgt": 2}), (DNS_RESOLVE, {"tgt": 0}), (NOTIFY, {"tgt": 2})]
 FAULT_SENDERS = [("auth", 3), ("auth", 1), ("auth", 2), ("unknown", 0), ("pending", 1)]
 
 
@@ -391,9 +391,41 @@ def fault_cases(probes, pouts, cap):
     return out
 
 
+PAIR_SKIP = (DNS_RESOLVE, DNS_QUERY)      # a forwarded DNS request has to be answered by the harness loop: not run as a second command
+
+
+def pair_cases(probes, pouts):
+    """concurrent pairs on the SAME handler objects: command A (stranger / party / other party) is parked in its k-th storage call,
+    command B of the same type from another client runs from start to end, A resumes.  Every handler of the table that
+    touches storage gets every parking position (up to 3) x sender pair x {same object, an object that does not exist}."""
+    calls = {}
+    for c, o in zip(probes, pouts):
+        s = c["steps"][0]
+        calls[(s["cmd"], json.dumps({k: s[k] for k in ("obj", "tgt", "dir", "sent", "recv")}, sort_keys=True), s["conn"], s["who"])] = o["steps"][0]["calls"]
+    out = []
+    for cmd, kw in FAULT_SCENARIOS:
+        if cmd in PAIR_SKIP:
+            continue
+        for wa in (3, 1, 2):
+            a = step("auth", wa, cmd, **kw)
+            n = calls.get((cmd, json.dumps({k: a[k] for k in ("obj", "tgt", "dir", "sent", "recv")}, sort_keys=True), "auth", wa), 0)
+            for k in range(1, min(n, 1 if cmd == TRAFFIC else 3) + 1):
+                for wb in (1, 2, 3):
+                    if wb == wa:
+                        continue
+                    variants_b = [kw] + ([dict(kw, obj=-1)] if "obj" in kw else [])
+                    for kwb in variants_b:
+                        t = copy.deepcopy(a)
+                        t["park"], t["pair"] = k, step("auth", wb, cmd, **kwb)
+                        out.append(dict(copy.deepcopy(WORLD), mode="case", aux=True, tag="pair", steps=[t]))
+    return out
+
+
 def fault_in_model(case, out):
     """faulted steps the model speaks about: the fault was not reached, or it hit the lookup read before the party decision;
     a fault after a GRANTED decision cuts the party's own mutation short (Go-side predicate only)"""
+    if any(so.get("timed_out") for so in out["steps"]):
+        return False
     for s, so in zip(case["steps"], out["steps"]):
         k = s.get("fault", 0)
         if k > 0 and so["fault_fired"] and not (s["cmd"] in GUARD1 and k == 1):
@@ -498,17 +530,23 @@ def case_value(case, out, flags):
                 a, b = s["obj"], s["as"]
             steps.append([code, a, b, c3, None, None, 0, 0, 0, 0, 0, obs])
             continue
-        kind = "c" if s["cmd"] == CODE_ACT else "d" if s["cmd"] == DOM_DEL else "m"
-        if s["obj"] == -2:
-            obj = None
-        elif s["obj"] < 0 or s["obj"] >= seen[kind]:
-            obj = [NOSUCH]
+        def enc(s, obs, fault):
+            kind = "c" if s["cmd"] == CODE_ACT else "d" if s["cmd"] == DOM_DEL else "m"
+            if s["obj"] == -2:
+                obj = None
+            elif s["obj"] < 0 or s["obj"] >= seen[kind]:
+                obj = [NOSUCH]
+            else:
+                obj = [s["obj"]]
+            tgt = None if s["tgt"] == 0 else [999] if s["tgt"] < 0 or s["tgt"] > case["nclients"] else [s["tgt"]]
+            return [KIND[s["conn"]], s["who"], s["cmd"], s["resp"], obj, tgt, s["dir"], s["sent"], s["recv"], s["valid"],
+                    s["claim"] if 0 < s["claim"] <= case["nclients"] else 0, obs, fault]
+        if s.get("pair"):
+            # concurrent pair: [9, stepA, stepB, ..., observed] ; observed carries okB at index 5
+            pobs = [o["ok"], o["mappings"], o["codes"], o["domains"], o["online"], o["ok2"], [], [], [], o["bind"]]
+            steps.append([9, enc(s, [], 0), enc(s["pair"], [], 0), 0, None, None, 0, 0, 0, 0, 0, pobs])
         else:
-            obj = [s["obj"]]
-        tgt = None if s["tgt"] == 0 else [999] if s["tgt"] < 0 or s["tgt"] > case["nclients"] else [s["tgt"]]
-        steps.append([KIND[s["conn"]], s["who"], s["cmd"], s["resp"], obj, tgt, s["dir"], s["sent"], s["recv"], s["valid"],
-                      s["claim"] if 0 < s["claim"] <= case["nclients"] else 0, obs,
-                      s["fault"] if s.get("fault", 0) > 0 and o.get("fault_fired") else 0])
+            steps.append(enc(s, obs, s["fault"] if s.get("fault", 0) > 0 and o.get("fault_fired") else 0))
         for key, rows in (("m", o["mappings"]), ("c", o["codes"]), ("d", o["domains"])):
             for r in rows:
                 seen[key] = max(seen[key], r[0] + 1)
@@ -595,6 +633,7 @@ def run(ctx, only_cases=None):
         probes = fault_probe_cases()
         pouts = vlib.run_harness(binary, probes, timeout=600)
         cases += fault_cases(probes, pouts, 24 if thorough else 12)
+        cases += pair_cases(probes, pouts)
     ovl = [c for c in cases if c.get("mode") == "overlap"] + (overlap_cases(ctx.rng, 120 if thorough else 24) if only_cases is None else [])
     cases = [c for c in cases if c.get("mode") != "overlap"]
     twins = [honest_twin(c) for c in cases if twin_wanted(c)]
@@ -729,6 +768,9 @@ def run(ctx, only_cases=None):
             dist["steps_with_delivery"] += 1 if so["deliveries"] else 0
             dist["steps_changing_storage"] += 1 if changed else 0
             prev = so
+    dist["concurrent_pair_cases"] = sum(1 for c in cases if c.get("tag") == "pair")
+    dist["concurrent_pairs_parked"] = sum(1 for c, o in zip(cases, couts) if c.get("tag") == "pair" and o["steps"][0].get("parked"))
+    dist["concurrent_pairs_serialized_by_the_handler"] = sum(1 for c, o in zip(cases, couts) if c.get("tag") == "pair" and o["steps"][0].get("serialized"))
     dist["fault_cases"] = sum(1 for c in cases if c.get("tag") == "fault")
     dist["fault_cases_fired"] = sum(1 for c, o in zip(cases, couts) if c.get("tag") == "fault" and o["steps"][0]["fault_fired"])
     dist["fault_cases_in_model_diff"] = sum(1 for c, o in zip(cases, couts) if c.get("tag") == "fault" and fault_in_model(c, o))
